@@ -111,6 +111,9 @@ def stage_ops(spec, opts):
     for rev in (True, False):
         stages.append(("finished-backward(rev=%s)" % rev, lambda p, rev=rev: p.backward_simulate(**dict(kw, reverse_log_information=rev))))
 
+    for rev in (True, False):
+        stages.append(("finished-backward(due-times,rev=%s)" % rev, lambda p, rev=rev: p.backward_simulate(**dict(kw, reverse_log_information=rev, considering_due_time_of_tail_tasks=True))))
+
     def edited(p, lst, remove_first=False):
         p.simulate(**dict(kw, absence_time_list=[0, 1] if remove_first else list(kw.get("absence_time_list", []))))
         if remove_first:
